@@ -150,6 +150,16 @@ func concOps() []concOp {
 	}
 }
 
+// safely runs one operation; a panic inside the library (possible when shared state was corrupted by a race) becomes a result
+func safely(o concOp, sh *shared, arg int) (out string) {
+	defer func() {
+		if r := recover(); r != nil {
+			out = "panic"
+		}
+	}()
+	return o.f(sh, arg)
+}
+
 func driveConc(c *ctx) {
 	// phase 0: first use of the precomputed tables from many goroutines at once, before anything else has touched them
 	{
@@ -159,6 +169,11 @@ func driveConc(c *ctx) {
 			wg.Add(1)
 			go func(g int) {
 				defer wg.Done()
+				defer func() {
+					if r := recover(); r != nil {
+						outs[g] = "panic"
+					}
+				}()
 				s := secp256k1.NewScalarFromUint64(uint64(1000003 + g%4))
 				outs[g] = hx(secp256k1.NewIdentityPoint().ScalarBaseMult(s).CompressedBytes())
 			}(g)
@@ -195,7 +210,7 @@ func driveConc(c *ctx) {
 	// phase 1: sequential results
 	for _, o := range ops {
 		for a := 0; a < nargs; a++ {
-			c.E("conc.Base", "op", o.name, "arg", a, "out", o.f(sh, a))
+			c.E("conc.Base", "op", o.name, "arg", a, "out", safely(o, sh, a))
 		}
 	}
 	before := sh.images()
@@ -224,7 +239,7 @@ func driveConc(c *ctx) {
 				for k := 0; k < 6; k++ {
 					o := ops[lr.Intn(len(ops))]
 					a := lr.Intn(nargs)
-					results[g] = append(results[g], res{o.name, a, o.f(sh, a)})
+					results[g] = append(results[g], res{o.name, a, safely(o, sh, a)})
 				}
 			}(g, seed)
 		}
